@@ -102,6 +102,7 @@ MUTATIONS = [
  ('m77', 'C02', 'src/dynamics/transformed_hamiltonian.rs', r's/            if self\.kinetic_energy_kind == KineticEnergyKind::Microcanonical \{\n                math\.array_normalize\(&mut point\.velocity\);/            if self.kinetic_energy_kind != KineticEnergyKind::Microcanonical {\n                math.array_normalize(\&mut point.velocity);/', 'fresh momentum is normalised for the Euclidean kind and not for the microcanonical one (mutation campaign)'),
  ('m78', 'C05', 'src/dynamics/transformed_hamiltonian.rs', r's/        if !math\.array_all_finite\(&self\.untransformed_gradient\) \{\n            return false;\n        \}\n        if !math\.array_all_finite\(&self\.untransformed_position\) \{\n            return false;\n        \}\n        true\n    \}\n\n    fn check_all/        if math.array_all_finite(\&self.untransformed_gradient) {\n            return false;\n        }\n        if !math.array_all_finite(\&self.untransformed_position) {\n            return false;\n        }\n        true\n    }\n\n    fn check_all/', 'check_untransformed accepts exactly the non-finite gradients (mutation campaign)'),
  ('m79', 'C06', 'src/chain.rs', r's/            draw_count: 0,/            draw_count: 1,/', 'a new NUTS chain starts counting draws at 1 (mutation campaign)'),
+ ('m80', 'C07', 'src/stepsize/adapt.rs', r's/    pub fn update_estimator_early\(&mut self\) \{\n        match self\.adaptation\.as_mut\(\) \{\n            None => \{\}\n            Some\(Either::Left\(adapt\)\) => \{\n                adapt\.advance\(self\.last_mean_tree_accept,/    pub fn update_estimator_early(\&mut self) {\n        match self.adaptation.as_mut() {\n            None => {}\n            Some(Either::Left(adapt)) => {\n                adapt.advance(self.last_sym_mean_tree_accept,/', 'early dual-averaging updates are fed the symmetric statistic'),
  ('e19', 'C07', 'src/stepsize/adapt.rs', r's/let dir = if accept_stat > self\.options\.target_accept \{/let dir = if accept_stat >= self.options.target_accept {/', 'NOT A VIOLATION: a tie between the first trial and the target is resolved the other way'),
  ('e20', 'C05', 'src/external_adapt_strategy.rs', r's/            if energy_error > self\.max_energy_error \{\n                return;\n            \}\n\n            if !math\.array_all_finite\(point\.position\(\)\) \{\n                return;\n            \}\n            if !math\.array_all_finite\(point\.gradient\(\)\) \{\n                return;\n            \}\n\n            self\.draws\.push\(math\.copy_array\(point\.position\(\)\)\);\n            self\.grads\.push\(math\.copy_array\(point\.gradient\(\)\)\);\n            self\.logps\.push\(point\.logp\(\)\);\n        \}\n    \}\n\n    fn register_draw/            if energy_error >= self.max_energy_error {\n                return;\n            }\n\n            if !math.array_all_finite(point.position()) {\n                return;\n            }\n            if !math.array_all_finite(point.gradient()) {\n                return;\n            }\n\n            self.draws.push(math.copy_array(point.position()));\n            self.grads.push(math.copy_array(point.gradient()));\n            self.logps.push(point.logp());\n        }\n    }\n\n    fn register_draw/', 'NOT A VIOLATION: an energy error exactly at the limit is dropped by the flow collector'),
  ('e21', 'C05', 'src/transform/adapt/diagonal.rs', r's/self\.is_good = idx\.abs\(\) > 4;/self.is_good = idx.abs() > 6;/', 'NOT A VIOLATION: divergent draws are rejected a little further from the start'),
@@ -164,7 +165,7 @@ def main():
     for d in sorted(glob.glob(os.path.join(V, 'seeded', '*'))):
         name = os.path.basename(d); cid = name.split('-')[0]
         if only and name not in only and cid not in only: continue
-        items.append(('seed', name, d, {'C03-2': ['C02'], 'C05-2': ['C05', 'C03'], 'C02-3': ['C17'], 'C05-4': ['C17']}.get(name, [cid])))
+        items.append(('seed', name, d, {'C03-2': ['C02'], 'C05-2': ['C05', 'C03'], 'C02-3': ['C17'], 'C05-4': ['C17'], 'C16-4': ['C18'], 'C09-4': ['C08']}.get(name, [cid])))
     base = '/tmp/verif-selftest-%d' % os.getpid(); os.makedirs(base)
     q = queue.Queue(); [q.put(i) for i in items]; results = []; lk = threading.Lock()
     def worker(k):
